@@ -117,37 +117,44 @@ def work(args):
     return res
 
 
-def run_family(modname, tier, configs, jobs, max_execs=200000, seed=0, log=None):
-    """Explore every program of the family under every configuration.  Returns coverage+violations."""
+def run_family(modname, tier, configs, jobs, max_execs=200000, seed=0, log=None, budget=None,
+               first_cap=4000):
+    """Explore every program of the family under every configuration.  Returns coverage+violations.
+
+    With an evaluation ``budget`` the exploration is done in two deterministic phases: every
+    program with the per-program cap ``first_cap``; then the programs that hit it are re-explored
+    with the cap ``max_execs`` - as many of them (an even stride over the capped ones) as the
+    budget allows.  Without a budget there is one phase with the cap ``max_execs``."""
     import multiprocessing as mp
     import random
 
     mod, progs = _family(modname, tier)
-    tasks = [(modname, tier, i, c, max_execs) for c in configs for i in range(len(progs))]
-    random.Random(seed).shuffle(tasks)
     cov = {"programs": len(progs), "configurations": configs, "evaluations": 0,
            "max_decision_points": 0, "deadlock_outcomes": 0, "replay_checks": 0,
            "capped_programs": 0}
-    classes = set()
-    nontrivial = set()
+    classes = {}
+    nontrivial = {}
+    capped = {}
     violations = []
     harness = []
     samples = []
-    if jobs > 1:
-        pool = mp.Pool(jobs)
-        it = pool.imap_unordered(work, tasks, chunksize=max(1, len(tasks) // (jobs * 8)))
-    else:
-        pool = None
-        it = map(work, tasks)
-    try:
+    pool = mp.Pool(jobs) if jobs > 1 else None
+
+    def phase(tasks):
+        random.Random(seed).shuffle(tasks)
+        if pool is not None:
+            it = pool.imap_unordered(work, tasks, chunksize=max(1, len(tasks) // (jobs * 8)))
+        else:
+            it = map(work, tasks)
         for r in it:
+            key = (r["idx"], configs.index(r["config"]))
             cov["evaluations"] += r["executions"]
             cov["max_decision_points"] = max(cov["max_decision_points"], r["max_points"])
             cov["deadlock_outcomes"] += r["deadlocks"]
             cov["replay_checks"] += r["replay_checks"]
-            cov["capped_programs"] += 1 if r["capped"] else 0
-            classes.update((r["idx"], c) for c in r["classes"])
-            nontrivial.update((r["idx"], c) for c in r["nontrivial_classes"])
+            capped[key] = (r["deviations_completed"] if r["capped"] else None, r["capped"])
+            classes[key] = set(r["classes"])
+            nontrivial[key] = set(r["nontrivial_classes"])
             for v in r["violations"]:
                 doc = {"engine": "A", "family": modname, "tier": tier, "program_index": r["idx"],
                        "program": progs[r["idx"]], "config": r["config"],
@@ -157,13 +164,34 @@ def run_family(modname, tier, configs, jobs, max_execs=200000, seed=0, log=None)
                 else:
                     violations.append(doc)
             if len(violations) >= 40 or harness:
-                break
+                return False
+        return True
+
+    try:
+        cap1 = max_execs if budget is None else min(first_cap, max_execs)
+        ok = phase([(modname, tier, i, c, cap1) for c in configs for i in range(len(progs))])
+        if ok and budget is not None and not violations:
+            again = sorted(k for k, (_, c) in capped.items() if c)
+            room = max(0, (budget - cov["evaluations"]) // max_execs)
+            cov["first_phase_cap"] = cap1
+            cov["first_phase_capped"] = len(again)
+            if len(again) > room:
+                step = len(again) / room if room else 0
+                again = [again[int(i * step)] for i in range(room)]
+            cov["second_phase_programs"] = len(again)
+            cov["second_phase_cap"] = max_execs
+            if again:
+                phase([(modname, tier, i, configs[ci], max_execs) for (i, ci) in again])
     finally:
         if pool is not None:
             pool.terminate()
             pool.join()
-    cov["distinct_outcome_classes"] = len(classes)
-    cov["distinct_nontrivial"] = len(nontrivial)
+    cov["capped_programs"] = sum(1 for (_, c) in capped.values() if c)
+    devs = [d for (d, c) in capped.values() if c and d is not None]
+    if devs:
+        cov["capped_programs_complete_up_to_deviations"] = min(devs)
+    cov["distinct_outcome_classes"] = len({(k[0], c) for k, cs in classes.items() for c in cs})
+    cov["distinct_nontrivial"] = len({(k[0], c) for k, cs in nontrivial.items() for c in cs})
     cov["exhaustive"] = cov["capped_programs"] == 0 and not violations
     for i in sorted({0, len(progs) // 2, len(progs) - 1}):
         samples.append({"program": progs[i]})
